@@ -116,7 +116,7 @@ func c18Handle(r *router.VerifRouter, nonce int) int {
 }
 
 func c18ShutdownRun(c string) string {
-	return c18Retry(func() string { return c18ShutdownOnce(c) })
+	return c18Retry(func() string { return c18NoGC(func() string { return c18ShutdownOnce(c) }) })
 }
 
 func c18ShutdownOnce(c string) string {
